@@ -75,6 +75,7 @@ fn rect_center_int<T: IntSc + num_traits::One + std::ops::Div<Output = T> + std:
     use crate::vecs::VK;
     use vek::geom::repr_c::{Aabb, Aabr, Rect, Rect3};
     set_int_mode();
+    set_range_assumed(); // overflow of x + w is the caller's business here; the subject is the rounding of /2
     if three {
         let r = Rect3::new(var::<T>("x"), var::<T>("y"), var::<T>("z"), var::<T>("w"), var::<T>("h"), var::<T>("d"));
         let b: Aabb<T> = r.into();
